@@ -8,6 +8,7 @@ import HpxVerif.Model.Layer
 import HpxVerif.Model.Topo
 import HpxVerif.Gen.Consts
 import HpxVerif.Model.Hash
+import HpxVerif.Model.Bilinear
 
 namespace Hpx.Driver
 
@@ -156,6 +157,22 @@ def optListF : Option (List (Float × Float)) → String
 
 def stepRest (st : St) (toks : List String) : St × String :=
   match toks with
+  | ["center", d, h] => (st, optPairF (Hash.center st.cfg (nat! d) (nat! h)))
+  | ["cpc", d, h] => (st, optPairF (Hash.centerOfProjectedCell st.cfg (nat! d) (nat! h)))
+  | ["vertices", d, h] => (st, optListF (Hash.vertices st.cfg (nat! d) (nat! h)))
+  | ["vertex", d, h, k] => (st, optPairF (Hash.vertex st.cfg (nat! d) (nat! h) (nat! k)))
+  | ["sphcoo", d, h, dx, dy] => (st, optPairF (Hash.sphCoo st.cfg (nat! d) (nat! h) (fl dx) (fl dy)))
+  | ["hashdxdy", d, lon, lat] =>
+    (st, match Hash.hashWithDxDy st.cfg (nat! d) (fl lon) (fl lat) with
+      | some (h, dx, dy) => s!"{h} {fb dx} {fb dy}"
+      | none => "panic")
+  | ["pathedge", d, h, start, cw, n] => (st, optListF (Hash.pathAlongCellEdge st.cfg (nat! d) (nat! h) (nat! start) (nat! cw == 1) (nat! n)))
+  | ["pathside", d, h, f, t, incl, n] => (st, optListF (Hash.pathAlongCellSide st.cfg (nat! d) (nat! h) (nat! f) (nat! t) (nat! incl == 1) (nat! n)))
+  | ["grid", d, h, n] => (st, optListF (Hash.grid st.cfg (nat! d) (nat! h) (nat! n)))
+  | ["bilinear", d, lon, lat] =>
+    (st, match Bilinear.bilinear st.cfg (nat! d) (fl lon) (fl lat) with
+      | some l => " ".intercalate (l.map fun p => s!"{p.1} {fb p.2}")
+      | none => "panic")
   | ["hash", d, lon, lat] => (st, optNat (Hash.hashV2 st.cfg (nat! d) (fl lon) (fl lat)))
   | ["hashhyp", lon, lat] =>
     -- the hypotheses of `C02.hash_prefix` evaluated on this position (the front end is private in the crate; the
